@@ -124,6 +124,15 @@ theorem undelegate_keepsLed (e : Env) (s : State) (g : Dec) (del : Addr) (val : 
               simp_all
 
 
+theorem redelegate_keepsLed (e : Env) (s : State) (g : Dec) (del : Addr) (src dst : ValAddr) (amt : Int) :
+    keepsLed s (stakeRedelegate e s g del src dst amt) := by
+  unfold keepsLed
+  split
+  · rename_i s' hs
+    exact redelegate_keeps ledPart (fun e s s' g g' v a b h => verifySuper_ledS e s s' g g' v a b h)
+      (fun s s' a b x h => send_ledS s s' a b x h) (fun _ _ => rfl) e s g del src dst amt s' hs
+  · trivial
+
 /-! ### every operation -/
 theorem begin_led (e : Env) (s s' : State) (h : nodeBeginBlock e s = .ok s') : ledPart s' = ledPart s := by
   unfold nodeBeginBlock at h
@@ -205,6 +214,13 @@ theorem C06_step_keeps_ledger_balanced (e : Env) (y : Sys) (op : Op) : ledPart (
   case undelegate c v a =>
     simp only [step, stepBase, stakeStep]
     have := undelegate_keepsLed e y.st y.global c v a
+    unfold keepsLed at this
+    split
+    · rename_i s' hs; rw [hs] at this; exact this
+    · rfl
+  case redelegate c v w a =>
+    simp only [step, stepBase, stakeStep]
+    have := redelegate_keepsLed e y.st y.global c v w a
     unfold keepsLed at this
     split
     · rename_i s' hs; rw [hs] at this; exact this
